@@ -15,7 +15,7 @@ def fingerprint(v, depth=0):
     import types
 
     if isinstance(v, logging.Logger):
-        return "Logger:" + v.name
+        return f"Logger:{v.name}:disabled={v.disabled}:level={v.level}:propagate={v.propagate}:handlers={len(v.handlers)}"
     if isinstance(v, (str, int, float, bool, bytes, type(None))):
         return repr(v)[:200]
     if isinstance(v, (type, types.FunctionType, types.BuiltinFunctionType)):
